@@ -3,52 +3,44 @@ import Gimli.Lemmas.ReaderSim
 namespace Gimli.Rd
 variable {σ : Type}
 
-/-! ## EndianSlice vs EndianReader on attached windows -/
+/-! ## EndianSlice vs EndianReader: the same windows under every method -/
 
-/-- the same window, not detached -/
-def NoDet (c d : Cur) : Prop := c = d ∧ c.det = false
-
-theorem coreSim_slice_shared : CoreSim sliceCore sharedCore NoDet where
-  view := by rintro s t ⟨rfl, _⟩; rfl
-  len := by rintro s t ⟨rfl, _⟩; rfl
+theorem coreSim_slice_shared : CoreSim sliceCore sharedCore Eq where
+  view := by rintro s t rfl; rfl
+  len := by rintro s t rfl; rfl
   truncate := by
-    rintro n s t ⟨rfl, hd⟩
+    rintro n s t rfl
     simp only [sliceCore, sharedCore, Shared.truncate_eq]
-    refine ⟨trivial, rfl, ?_⟩
-    unfold Slice.truncate; split <;> exact hd
-  offsetFrom := by
-    rintro m s t s' t' ⟨rfl, hd⟩ ⟨rfl, hd'⟩
-    simp [sliceCore, sharedCore, Slice.offsetFrom, Shared.offsetFrom, hd, hd']
-  offsetId := by
-    rintro s t ⟨rfl, hd⟩
-    simp [sliceCore, sharedCore, Slice.offsetId, Shared.offsetId, hd]
-  lookupOffsetId := by
-    rintro s t ⟨rfl, hd⟩ id
-    simp [sliceCore, sharedCore, Slice.lookupOffsetId, Shared.lookupOffsetId, hd]
-  find := by rintro s t ⟨rfl, _⟩ b; rfl
+    exact ⟨trivial, trivial⟩
+  offsetFrom := by rintro m s t s' t' rfl rfl; rfl
+  offsetId := by rintro s t rfl; rfl
+  lookupOffsetId := by rintro s t rfl id; rfl
+  find := by rintro s t rfl b; rfl
   skip := by
-    rintro n s t ⟨rfl, hd⟩
+    rintro n s t rfl
     simp only [sliceCore, sharedCore, Shared.skip_eq]
-    refine ⟨trivial, rfl, ?_⟩
-    unfold Slice.skip; split <;> exact hd
+    exact ⟨trivial, trivial⟩
   split := by
-    rintro n s t ⟨rfl, hd⟩
+    rintro n s t rfl
     simp only [sliceCore, sharedCore, Shared.split_eq]
     unfold Slice.split Slice.readSliceRaw
     by_cases h : s.len < n
-    · simp only [h, if_true]; exact ⟨rfl, rfl, hd⟩
-    · simp only [h, if_false]; exact ⟨⟨rfl, hd⟩, rfl, hd⟩
-  toSlice := by rintro s t ⟨rfl, _⟩; rfl
-  toStr := by rintro v s t ⟨rfl, _⟩; rfl
-  toLossy := by rintro v l s t ⟨rfl, _⟩; rfl
+    · simp only [h, if_true]; exact ⟨rfl, trivial⟩
+    · simp only [h, if_false]; exact ⟨rfl, trivial⟩
+  toSlice := by rintro s t rfl; rfl
+  toStr := by rintro v s t rfl; rfl
+  toLossy := by rintro v l s t rfl; rfl
   readSlice := by
-    rintro n s t ⟨rfl, hd⟩
+    rintro n s t rfl
     simp only [sliceCore, sharedCore, Shared.readSlice_eq]
-    refine ⟨trivial, rfl, ?_⟩
-    unfold Slice.readSlice Slice.readSliceRaw M.bind M.pure
-    by_cases h : s.len < n <;> simp [h, hd]
+    exact ⟨trivial, trivial⟩
 
-theorem sim_slice_shared : Sim sliceImpl sharedImpl NoDet := coreSim_slice_shared.withDefaults
+theorem sim_slice_shared : Sim sliceImpl sharedImpl Eq := coreSim_slice_shared.withDefaults
+
+/-- `empty` too: `&self.slice[..0]` and `SubRange::truncate(0)` are the same window -/
+theorem empty_slice_shared (c : Cur) : sliceImpl.empty c = sharedImpl.empty c := by
+  show Slice.empty c = Shared.empty c
+  rw [Shared.empty_eq]; rfl
 
 /-! ## RelocateReader with the identity relocation vs its inner reader -/
 
